@@ -102,9 +102,13 @@ def run(ctx):
             ws = w.strftime("%Y-%m-%d %H:%M:%S")
             own = False
             if parser == "absolute-own":
-                o = rng.choice(lib_off)
-                sign = "+" if o >= 0 else "-"
-                s = ws + " %s%02d%02d" % (sign, abs(o) // 3600, (abs(o) % 3600) // 60)
+                if rng.random() < 0.35:      # the string's own zone as a library abbreviation
+                    ab, o = rng.choice(lib_abbr)
+                    s = ws + " " + ab
+                else:
+                    o = rng.choice(lib_off)
+                    sign = "+" if o >= 0 else "-"
+                    s = ws + rng.choice([" %s%02d%02d", " %s%02d:%02d", " UTC%s%02d:%02d"]) % (sign, abs(o) // 3600, (abs(o) % 3600) // 60)
                 offA = o
                 own = True
                 inst = w - datetime.timedelta(seconds=o)
